@@ -25,7 +25,14 @@ def acyclic(rules):
         color[u] = 2; return True
     return all(dfs(u) for u in list(by) if u not in color)
 
-def derivations(rules, toks, start):
+def derivations(rules, toks, start, alt_types=None):
+    """alt_types[i]: the set of terminal names token i may be read as (dynamic lexers with overlapping terminals); default: its own type"""
+    def is_(i, name):
+        return toks[i].type == name if alt_types is None else name in alt_types[i]
+    def leaf(i, name):
+        if toks[i].type == name: return toks[i]
+        from lark import Token
+        return Token.new_borrow_pos(name, str(toks[i]), toks[i])
     by = {}
     for r in rules: by.setdefault(r.origin.name, []).append(r)
     n = len(toks)
@@ -38,7 +45,7 @@ def derivations(rules, toks, start):
         else:
             s = syms[0]; r = False
             if s.is_term:
-                r = i < j and toks[i].type == s.name and feas(syms[1:], i + 1, j, memo)
+                r = i < j and is_(i, s.name) and feas(syms[1:], i + 1, j, memo)
             else:
                 r = any((s.name, i, k) in D and feas(syms[1:], k, j, memo) for k in range(i, j + 1))
         memo[key] = r; return r
@@ -56,8 +63,8 @@ def derivations(rules, toks, start):
         if not syms: return [[]] if i == j else []
         out = []; s = syms[0]
         if s.is_term:
-            if i < j and toks[i].type == s.name and feas(syms[1:], i + 1, j, fm):
-                for rest in seqs(syms[1:], i + 1, j): out.append([toks[i]] + rest)
+            if i < j and is_(i, s.name) and feas(syms[1:], i + 1, j, fm):
+                for rest in seqs(syms[1:], i + 1, j): out.append([leaf(i, s.name)] + rest)
         else:
             for k in range(i, j + 1):
                 if (s.name, i, k) in D and feas(syms[1:], k, j, fm):
